@@ -199,6 +199,16 @@ func fnRename(ctx *cmdContext, args map[string]any) (output respValue, err error
 	srcKeyName := args["key"].(string)
 	destKeyName := args["newkey"].(string)
 
+	if srcKeyName == destKeyName {
+		// renaming a key to itself changes nothing (but the key has to exist)
+		if _, exists := ctx.dsc.getKeyObject(srcKeyName); exists {
+			output.data = rstrOK
+		} else {
+			output.data = respErrorString("ERR no such key")
+		}
+		return
+	}
+
 	result := ctx.dsc.move(srcKeyName, destKeyName, ctx.dsc.ds, true)
 	if result == RESULT_COMPLETED {
 		output.data = rstrOK
